@@ -7,6 +7,7 @@ import (
 	"go/ast"
 	"go/token"
 	"go/types"
+	"sort"
 	"strings"
 )
 
@@ -346,6 +347,9 @@ func ruleR229(c *Ctx) {
 
 func ruleR230(c *Ctx) {
 	p := c.P
+	r230fields := map[*types.Func][]*types.Var{}
+	r230sites := map[*types.Func][]*ast.CallExpr{}
+	r230funcs := map[*types.Func]*FuncInfo{}
 	what := "the item type of a stored value follows the Go type the worker answered with. A copy in which every whole float64 has become an int64 'for workers that decode JSON' stores 2.0 as an integer: it reads back as int64, and a later property declared float that refers to it comes out empty"
 	n := 0
 	for _, f := range p.Funcs {
@@ -376,12 +380,41 @@ func ruleR230(c *Ctx) {
 					verbatim = false
 				}
 			}
+			if fv := fieldOf(in, srcs[0]); fv != nil && len(srcs) == 1 {
+				r230fields[fn] = append(r230fields[fn], fv)
+				r230sites[fn] = append(r230sites[fn], cl)
+				r230funcs[fn] = f
+			}
 			c.Check(verbatim, f, cl, "values handed to "+fn.Name(), what, ifElse(verbatim, exprString(cl.Args[1])+": the answer's own field", exprString(cl.Args[1])+" is not a field of the answer"))
 			return true
 		})
 	}
 	if n == 0 {
 		c.Missing("answer application", "no call of ApplyTaskDataOutput / ApplyTaskResult was found")
+	}
+	// each part of the answer goes through its own function, once: results are not applied as data outputs
+	what2 := "the results of an answer are matched against the declared results, its data objects against the declared data outputs. Run through the other function 'for workers that answer with a single map', an undeclared result that happens to be named like a declared data output overwrites that data object"
+	owner := map[*types.Var]*types.Func{}
+	var fns []*types.Func
+	for fn := range r230fields {
+		fns = append(fns, fn)
+	}
+	sort.Slice(fns, func(i, j int) bool { return r230sites[fns[i]][0].Pos() < r230sites[fns[j]][0].Pos() })
+	for _, fn := range fns {
+		fvs := r230fields[fn]
+		for i, fv := range fvs {
+			prev, seen := owner[fv]
+			okOne := (!seen || prev == fn) && fvs[0] == fv
+			owner[fv] = fn
+			wit := "only " + fvs[0].Name()
+			if !okOne {
+				wit = fv.Name() + " is handed to " + fn.Name() + " besides " + fvs[0].Name()
+				if seen && prev != fn {
+					wit = fv.Name() + " is handed to " + fn.Name() + " and to " + prev.Name()
+				}
+			}
+			c.Check(okOne, r230funcs[fn], r230sites[fn][i], "part of the answer applied by "+fn.Name(), what2, wit)
+		}
 	}
 }
 
@@ -1467,4 +1500,431 @@ func isConversionOfNil(in *types.Info, e ast.Expr) bool {
 	}
 	tv, ok := in.Types[cl.Args[0]]
 	return ok && tv.IsNil()
+}
+
+// ---- R246–R248 (round 11) ----
+
+func init() {
+	register(&Rule{ID: "R246", Title: "a container is added, never replaced: the engine puts a fresh container into a data locator only where the lookup of the same key just failed", Min: 2, Run: ruleR246})
+	register(&Rule{ID: "R247", Title: "what is read through a cloned wiring is what the clone carries: no field that CloneFor leaves unset is read through a variable it defined", Min: 1, Run: ruleR247})
+	register(&Rule{ID: "R248", Title: "every occurrence that matches a definition is booked: in a satisfier, from the test that the event matches a definition every path to a return sets a bit of a chain (or takes the non-parallel fast path)", Min: 1, Run: ruleR248})
+}
+
+func ruleR246(c *Ctx) {
+	p := c.P
+	what := "the data objects of an instance live in one container per locator; options and task answers add to it. An option that registers a container of its own replaces what the locator held: the objects of an earlier option, or of the locator the user handed in, vanish without a trace"
+	n := 0
+	for _, f := range p.Funcs {
+		if f.Body == nil || f.Pkg.PkgPath != pathBpmn {
+			continue
+		}
+		in := info(f)
+		inspectNoLit(f.Body, func(m ast.Node) bool {
+			cl, ok := m.(*ast.CallExpr)
+			if !ok || len(cl.Args) != 2 {
+				return true
+			}
+			se, ok := unparen(cl.Fun).(*ast.SelectorExpr)
+			if !ok || se.Sel.Name != "PutIItemAwareLocator" {
+				return true
+			}
+			n++
+			guarded := ""
+			for _, pc := range polarConds(p, cl) {
+				// !found, found := X.FindIItemAwareLocator(key)
+				var id *ast.Ident
+				neg := !pc.positive
+				e := unparen(pc.cond)
+				if u, ok := e.(*ast.UnaryExpr); ok && u.Op == token.NOT {
+					e, neg = unparen(u.X), !neg
+				}
+				id, _ = e.(*ast.Ident)
+				if id == nil || !neg {
+					continue
+				}
+				v := objOf(in, id)
+				if v == nil {
+					continue
+				}
+				defs, _ := localDefs(in, f.Root().Body, v)
+				for _, d := range defs {
+					dc, ok := unparen(d).(*ast.CallExpr)
+					if !ok || len(dc.Args) != 1 {
+						continue
+					}
+					ds, ok := unparen(dc.Fun).(*ast.SelectorExpr)
+					if !ok || ds.Sel.Name != "FindIItemAwareLocator" {
+						continue
+					}
+					if sameRef(in, ds.X, se.X) && exprString(dc.Args[0]) == exprString(cl.Args[0]) {
+						guarded = "only where " + exprString(dc) + " found nothing"
+					}
+				}
+			}
+			c.Check(guarded != "", f, cl, "container put into "+exprString(se.X)+" in "+f.Root().QName(), what, ifElse(guarded != "", guarded, "not controlled by a failed lookup of "+exprString(cl.Args[0])+" in the same locator"))
+			return true
+		})
+	}
+	if n == 0 {
+		c.Missing("container registrations", "no call of PutIItemAwareLocator was found in the engine package")
+	}
+}
+
+func ruleR247(c *Ctx) {
+	p := c.P
+	what := "CloneFor makes the wiring of a node that is attached to another (a boundary event): it copies what such a node needs and leaves the rest unset. A token built from the clone's fields gets nil for what was left out — the data locator: the first task behind the boundary event that answers with a result panics the engine"
+	n := 0
+	// clone functions: a method of T that returns a &T{keyed...} lacking some fields
+	missing := map[*types.Func]map[string]bool{}
+	for _, f := range p.Funcs {
+		if f.Body == nil || f.Obj == nil || f.Pkg.PkgPath != pathBpmn || !strings.HasPrefix(f.Obj.Name(), "Clone") {
+			continue
+		}
+		T := recvNamed(f.Obj)
+		if T == nil {
+			continue
+		}
+		st, ok := T.Underlying().(*types.Struct)
+		if !ok {
+			continue
+		}
+		in := info(f)
+		inspectNoLit(f.Body, func(m ast.Node) bool {
+			cl, ok := m.(*ast.CompositeLit)
+			if !ok || namedOf(in.TypeOf(cl)) != T {
+				return true
+			}
+			set := map[string]bool{}
+			for _, el := range cl.Elts {
+				if kv, ok := el.(*ast.KeyValueExpr); ok {
+					if k, ok := kv.Key.(*ast.Ident); ok {
+						set[k.Name] = true
+					}
+				}
+			}
+			ms := map[string]bool{}
+			for i := 0; i < st.NumFields(); i++ {
+				if !set[st.Field(i).Name()] {
+					ms[st.Field(i).Name()] = true
+				}
+			}
+			// fields the function assigns afterwards count as set
+			inspectNoLit(f.Body, func(z ast.Node) bool {
+				if as, ok := z.(*ast.AssignStmt); ok {
+					for _, l := range as.Lhs {
+						if fv := fieldOf(in, l); fv != nil {
+							delete(ms, fv.Name())
+						}
+					}
+				}
+				return true
+			})
+			missing[f.Obj] = ms
+			return true
+		})
+	}
+	for _, f := range p.Funcs {
+		if f.Body == nil || f.Pkg.PkgPath != pathBpmn {
+			continue
+		}
+		in := info(f)
+		inspectNoLit(f.Body, func(m ast.Node) bool {
+			as, ok := m.(*ast.AssignStmt)
+			if !ok || len(as.Rhs) != 1 {
+				return true
+			}
+			cl, ok := unparen(as.Rhs[0]).(*ast.CallExpr)
+			if !ok {
+				return true
+			}
+			fn := callee(in, cl)
+			ms, isClone := missing[fn]
+			if !isClone || len(as.Lhs) == 0 {
+				return true
+			}
+			id, ok := unparen(as.Lhs[0]).(*ast.Ident)
+			if !ok {
+				return true
+			}
+			v := objOf(in, id)
+			if v == nil {
+				return true
+			}
+			n++
+			var bad []string
+			ast.Inspect(f.Root().Body, func(z ast.Node) bool {
+				se, ok := z.(*ast.SelectorExpr)
+				if !ok {
+					return true
+				}
+				if bid, ok := unparen(se.X).(*ast.Ident); ok && objOf(in, bid) == v && ms[se.Sel.Name] {
+					if pa, ok := p.Parent(se).(*ast.AssignStmt); ok {
+						for _, l := range pa.Lhs {
+							if l == ast.Expr(se) {
+								return true // a write sets it
+							}
+						}
+					}
+					bad = append(bad, exprString(se)+" at "+c.pos(se))
+				}
+				return true
+			})
+			var names []string
+			for k := range ms {
+				names = append(names, k)
+			}
+			c.Check(len(bad) == 0, f, as, "reads through the clone "+id.Name+" in "+f.Root().QName(), what, ifElse(len(bad) == 0, "none of the fields "+fn.Name()+" leaves unset ("+strings.Join(names, ",")+") is read through it", strings.Join(bad, "; ")+": "+fn.Name()+" leaves it unset"))
+			return true
+		})
+	}
+	if n == 0 {
+		c.Missing("cloned wirings", "no variable defined from a Clone* method of the wiring was found")
+	}
+}
+
+func ruleR248(c *Ctx) {
+	p := c.P
+	what := "a parallel-multiple catch has fired exactly k times whenever every definition has been matched exactly k times: each occurrence has to be booked in some chain, however far one definition runs ahead of the others. A bound on the number of open chains ('the newest chain absorbs the repeat') drops the occurrence: A,A,A,A,B,B,B,B fires three times"
+	n := 0
+	for _, f := range p.Funcs {
+		if f.Body == nil || f.Obj == nil || f.Obj.Name() != "Satisfy" || f.Pkg.PkgPath != pathLogic {
+			continue
+		}
+		in := info(f)
+		g := p.Graph(f)
+		inspectNoLit(f.Body, func(m ast.Node) bool {
+			is, ok := m.(*ast.IfStmt)
+			if !ok {
+				return true
+			}
+			isMatch := mentionsDeep(is.Cond, func(z ast.Node) bool {
+				cl, ok := z.(*ast.CallExpr)
+				if !ok {
+					return false
+				}
+				fn := callee(in, cl)
+				return fn != nil && fn.Name() == "MatchesEventInstance"
+			})
+			if !isMatch {
+				return true
+			}
+			// only satisfiers that keep chains
+			keeps := false
+			inspectNoLit(is.Body, func(z ast.Node) bool {
+				if cl, ok := z.(*ast.CallExpr); ok {
+					if fn := callee(in, cl); fn != nil && fn.Name() == "Set" && fn.Pkg() != nil && strings.Contains(fn.Pkg().Path(), "bitset") {
+						keeps = true
+					}
+				}
+				return true
+			})
+			if !keeps {
+				return true
+			}
+			n++
+			entry, ok := g.EntryOfStmts(is.Body.List)
+			if !ok {
+				c.Bad(f, is, "booking of a matched occurrence in "+f.QName(), what, "the body of the match test is not in the flow graph")
+				return true
+			}
+			booked := func(nd ast.Node) bool {
+				hit := false
+				inspectNoLit(nd, func(z ast.Node) bool {
+					switch x := z.(type) {
+					case *ast.CallExpr:
+						if fn := callee(in, x); fn != nil && fn.Name() == "Set" && fn.Pkg() != nil && strings.Contains(fn.Pkg().Path(), "bitset") {
+							hit = true
+						}
+						// a same-package helper that sets a bit on every path (startChain)
+						if cf := p.byObj[callee(in, x)]; cf != nil && cf.Pkg == f.Pkg && cf.Body != nil {
+							cin := info(cf)
+							cg := p.Graph(cf)
+							if len(cg.MustPassBeforeExit(cg.Entry(), true, func(y ast.Node) bool {
+								h := false
+								inspectNoLit(y, func(w ast.Node) bool {
+									if c2, ok := w.(*ast.CallExpr); ok {
+										if fn := callee(cin, c2); fn != nil && fn.Name() == "Set" && fn.Pkg() != nil && strings.Contains(fn.Pkg().Path(), "bitset") {
+											h = true
+										}
+									}
+									return true
+								})
+								return h
+							})) == 0 {
+								hit = true
+							}
+						}
+					case *ast.AssignStmt:
+						// the fast path: matched = true
+						for i, l := range x.Lhs {
+							if id, ok := unparen(l).(*ast.Ident); ok && id.Name == "matched" && i < len(x.Rhs) && isIdentNamed(x.Rhs[i], "true") {
+								hit = true
+							}
+						}
+					}
+					return true
+				})
+				return hit
+			}
+			badPaths := g.MustPassBeforeExit(entry, true, booked)
+			wit := "every path books the occurrence (sets a bit of a chain) or is the non-parallel fast path"
+			if len(badPaths) > 0 {
+				wit = fmt.Sprintf("a path leaves without booking the occurrence: lines %v", g.Lines(badPaths[0]))
+			}
+			c.Check(len(badPaths) == 0, f, is, "booking of a matched occurrence in "+f.QName(), what, wit)
+			return true
+		})
+	}
+	if n == 0 {
+		c.Missing("satisfier", "no Satisfy method that keeps chains was found in pkg/logic")
+	}
+}
+
+func init() {
+	register(&Rule{ID: "R249", Title: "a delivery reads the list of consumers and never writes it: a function that is handed the list by pointer (ForwardEvent) does not assign through the pointer, re-slice it for appending, or clear it", Min: 1, Run: ruleR249})
+}
+
+func ruleR249(c *Ctx) {
+	p := c.P
+	what := "every caller hands ForwardEvent a list that concurrent deliveries share (under a read lock, or as a slice header that aliases the same backing array). Filtering the list in place — kept := (*list)[:0]; append; clear the tail — makes every delivery a writer: a data race, consumers that lose or see events twice, a nil slot called by a delivery that overlaps"
+	n := 0
+	for _, f := range p.Funcs {
+		if f.Body == nil || f.Obj == nil || f.Pkg.PkgPath != pathEvent {
+			continue
+		}
+		sig := f.Obj.Type().(*types.Signature)
+		var lp *types.Var
+		for i := 0; i < sig.Params().Len(); i++ {
+			if pt, ok := sig.Params().At(i).Type().(*types.Pointer); ok {
+				if sl, ok := pt.Elem().Underlying().(*types.Slice); ok && isNamed(sl.Elem(), pathEvent, "IConsumer") {
+					lp = sig.Params().At(i)
+				}
+			}
+		}
+		if lp == nil {
+			continue
+		}
+		n++
+		in := info(f)
+		viaParam := func(e ast.Expr) bool {
+			hit := false
+			ast.Inspect(e, func(z ast.Node) bool {
+				if id, ok := z.(*ast.Ident); ok && objOf(in, id) == types.Object(lp) {
+					hit = true
+				}
+				return true
+			})
+			return hit
+		}
+		var bad []string
+		ast.Inspect(f.Body, func(m ast.Node) bool {
+			switch x := m.(type) {
+			case *ast.AssignStmt:
+				for _, l := range x.Lhs {
+					if _, plain := unparen(l).(*ast.Ident); plain {
+						continue
+					}
+					if viaParam(l) {
+						bad = append(bad, "assignment to "+exprString(l)+" at "+c.pos(x))
+					}
+				}
+				for _, r := range x.Rhs {
+					// a re-slice of the shared list kept for appending: (*list)[:0], (*list)[:k]
+					if se, ok := unparen(r).(*ast.SliceExpr); ok && viaParam(se.X) {
+						bad = append(bad, "re-slice "+exprString(r)+" at "+c.pos(x)+" shares the backing array")
+					}
+				}
+			case *ast.CallExpr:
+				if (isBuiltin(in, x, "clear") || isBuiltin(in, x, "copy")) && len(x.Args) > 0 && viaParam(x.Args[0]) {
+					bad = append(bad, exprString(x)+" at "+c.pos(x))
+				}
+				if isBuiltin(in, x, "append") && len(x.Args) > 0 && viaParam(x.Args[0]) {
+					bad = append(bad, exprString(x)+" at "+c.pos(x)+" may write the shared backing array")
+				}
+			}
+			return true
+		})
+		c.Check(len(bad) == 0, f, f.Decl, f.QName()+" only reads the list "+lp.Name(), what, ifElse(len(bad) == 0, "no write through "+lp.Name(), strings.Join(bad, "; ")))
+	}
+	if n == 0 {
+		c.Missing("forwarding function", "no function of pkg/event that takes *[]IConsumer was found")
+	}
+}
+
+func init() {
+	register(&Rule{ID: "R251", Title: "a decision that was asked for is waited for: the select in which a token receives the error handler's decision has no alternative but the cancellation", Min: 1, Run: ruleR251})
+}
+
+func ruleR251(c *Ctx) {
+	p := c.P
+	what := "a task that answers with an error and a handler channel has promised a decision (retry, skip, exit); the token waits for it or for the cancellation. A third alternative — a timer 'so that a worker that never decides cannot hold the token' — turns a late exit or retry into a skip: the token walks on past a task that was to be repeated"
+	n := 0
+	for _, f := range p.Funcs {
+		if f.Body == nil || f.Pkg.PkgPath != pathBpmn {
+			continue
+		}
+		in := info(f)
+		inspectNoLit(f.Body, func(m ast.Node) bool {
+			sel, ok := m.(*ast.SelectStmt)
+			if !ok {
+				return true
+			}
+			rxOf := func(cc *ast.CommClause) ast.Expr {
+				var e ast.Expr
+				switch s := cc.Comm.(type) {
+				case *ast.ExprStmt:
+					e = s.X
+				case *ast.AssignStmt:
+					if len(s.Rhs) == 1 {
+						e = s.Rhs[0]
+					}
+				}
+				if u, ok := unparen(e).(*ast.UnaryExpr); ok && u.Op == token.ARROW {
+					return u.X
+				}
+				return nil
+			}
+			isDecision := false
+			for _, st := range sel.Body.List {
+				cc := st.(*ast.CommClause)
+				if cc.Comm == nil {
+					continue
+				}
+				if rx := rxOf(cc); rx != nil {
+					if et, ok := chanElem(in.TypeOf(rx)); ok && isNamed(et, pathBpmn, "ErrHandler") {
+						isDecision = true
+					}
+				}
+			}
+			if !isDecision {
+				return true
+			}
+			n++
+			var extra []string
+			for _, st := range sel.Body.List {
+				cc := st.(*ast.CommClause)
+				if cc.Comm == nil {
+					extra = append(extra, "default at "+c.pos(cc))
+					continue
+				}
+				rx := rxOf(cc)
+				if rx == nil {
+					extra = append(extra, "send at "+c.pos(cc))
+					continue
+				}
+				if et, ok := chanElem(in.TypeOf(rx)); ok && isNamed(et, pathBpmn, "ErrHandler") {
+					continue
+				}
+				if isCtxDoneCall(in, rx) {
+					continue
+				}
+				extra = append(extra, "<-"+exprString(rx)+" at "+c.pos(cc))
+			}
+			c.Check(len(extra) == 0, f, sel, "wait for the handler's decision in "+f.Root().QName(), what, ifElse(len(extra) == 0, "the decision or the cancellation", "also: "+strings.Join(extra, "; ")))
+			return true
+		})
+	}
+	if n == 0 {
+		c.Missing("decision wait", "no select that receives an ErrHandler was found")
+	}
 }
